@@ -2813,16 +2813,16 @@ func (db *DB) Import(ctx context.Context, r io.Reader) error {
 	}
 	defer guard.Unlock()
 
+	// Roll back a leftover journal and checkpoint the WAL into the database
+	// file first. Discarding them instead would leave the database file without
+	// its committed WAL pages if the import fails or is interrupted.
+	if err := db.recover(ctx); err != nil {
+		return fmt.Errorf("recover: %w", err)
+	}
+
 	// Invalidate journal, if one exists.
 	if err := db.invalidateJournal(JournalModePersist); err != nil {
 		return fmt.Errorf("invalidate journal: %w", err)
-	}
-
-	// Truncate WAL, if it exists.
-	if _, err := db.os.Stat("IMPORT:WAL", db.WALPath()); err == nil {
-		if err := db.TruncateWAL(ctx, 0); err != nil {
-			return fmt.Errorf("truncate wal: %w", err)
-		}
 	}
 
 	pos, err := db.importToLTX(ctx, r)
